@@ -571,7 +571,7 @@ pub fn run(args: &Args) -> i32 {
         println!("VIOLATION property=C07 replay={path}");
         return EXIT_VIOLATION;
     }
-    let total: u64 = args.tier.pick(150_000, 6_000_000);
+    let total: u64 = args.tier.pick(1_200_000, 40_000_000);
     let shards = args.jobs as u64;
     let per = total.div_ceil(shards);
     let budget = Duration::from_secs(args.tier.pick(240, 3600));
@@ -692,9 +692,9 @@ pub fn run(args: &Args) -> i32 {
         ],
         exhaustive: None,
         floors: vec![
-            ("server_inputs".into(), args.tier.pick(80_000, 3_000_000)),
-            ("client_inputs".into(), args.tier.pick(40_000, 1_500_000)),
-            ("followup_sentinels_answered".into(), args.tier.pick(80_000, 3_000_000)),
+            ("server_inputs".into(), args.tier.pick(700_000, 20_000_000)),
+            ("client_inputs".into(), args.tier.pick(350_000, 10_000_000)),
+            ("followup_sentinels_answered".into(), args.tier.pick(700_000, 20_000_000)),
         ],
         min_classes: 500,
     };
